@@ -19,6 +19,21 @@ CHECKS = {
          "through every callee. Encode/decode round trip of whole nodes is not yet under contract (see evidence residual).",
          TRUST + "scale.Decoder.Decode is an assumed contract (havocs its destination, any error); bytes.Reader methods are executed from their real bodies.",
          "contract-based deductive verification: WP/symbolic execution over go/ssa of the real functions + SMT (z3/cvc5)"),
+ "C37": ("Unbounded deductive proof over the real lib/keystore functions: Decrypt/DecryptPrivateKey/Encrypt/gcmFromPassphrase never panic for any data and "
+         "password, never write to their inputs (frame), ciphertexts shorter than nonce+tag are errors, an Open error is returned as an error and never a key, "
+         "the AES key is derived from the whole unmodified password (ghost call log of blake2b.Sum256), the nonce/ciphertext handed to Open are exactly data[:12] / data[12:].",
+         TRUST + "cipher.AEAD is an assumed library contract (12-byte nonce, 16-byte tag, Seal/Open append to dst and only read their other arguments); the cryptographic "
+         "round-trip and tamper-evidence of AES-GCM itself are assumed, not proved; DecodePrivateKey (elliptic-curve libraries) is an assumed contract.",
+         "contract-based deductive verification: WP/symbolic execution over go/ssa of the real functions + SMT (z3/cvc5)"),
+ "C30": ("Unbounded deductive proof over dot/peerset: saturating reputation arithmetic (add/sub/tick) against the 64-bit clamp specification; every slot operation "
+         "(tryAcceptIncoming, tryOutgoing, disconnect, addNoSlotNode, removeNoSlotNode) changes numIn/numOut by exactly the change of the peer's slot-occupancy indicator, "
+         "respects maxIn/maxOut, leaves everything unchanged on error (delta contracts, whole-record frame); insertPeer/newNode/peerStatus contracts; addReputation applies the "
+         "saturating change and never re-acquires its lock (ghost lock state); reportPeer reaches every reported peer (ghost call counter + loop invariant); incoming never emits "
+         "Accept for a peer below the ban threshold (assertion at every channel send).",
+         TRUST + "The finite-cardinality step (numIn equals the number of peers whose indicator is set, given every operation preserves the delta) is a stated mathematical lemma. "
+         "In reportPeer/incoming the structural preconditions of PeersState operations are assumed (listed in evidence); updateTime and allocSlots are assumed contracts (modifies *); "
+         "the goroutine dispatcher is not modelled.",
+         "contract-based deductive verification: WP/symbolic execution over go/ssa of the real functions + SMT (z3/cvc5)"),
 }
 
 NA = {
